@@ -81,8 +81,23 @@ func roundTrip(c *mc.Ctx, t uint32, z uint32, extent uint32) {
 			}
 			if ax == 1 {
 				if s := math.Sin(geo[i][1] * math.Pi / 180); math.Abs(s) > 0.9999 {
-					// beyond 89.19 degrees: outside the mercator square, mercator.ToPlanar clamps (and flips)
-					cl = "tile-roundtrip:beyond-mercator-clamp"
+					// beyond 89.19 degrees: outside the mercator square, mercator.ToPlanar clamps (and flips): north
+					// goes to the world's last row (last tile row for a non-power-of-two extent), south to row 0.
+					// Only that recorded behaviour is the known finding; any other wrong pixel up there is not.
+					var clamp float64
+					switch pow2 := extent&(extent-1) == 0; {
+					case pow2 && s > 0:
+						clamp = n*float64(extent) - 1 - float64(t)*float64(extent)
+					case pow2:
+						clamp = -float64(t) * float64(extent)
+					case s > 0:
+						clamp = math.Floor((n - 1 - float64(t)) * float64(extent))
+					default:
+						clamp = math.Floor(-float64(t) * float64(extent))
+					}
+					if q[ax] == clamp {
+						cl = "tile-roundtrip:beyond-mercator-clamp"
+					}
 				}
 			}
 			c.Failf(cl, "tile %v extent %d: pixel %v on axis %d -> WGS84 %v -> pixel %v", tile, extent, p, ax, geo[i], q[ax])
